@@ -22,13 +22,13 @@ RULE = ('scenario = seeded DAT model (declarations in seeded order with spaces/t
 REAL = ['TotalDepth.DAT.DAT_parser.parse_file / can_parse_file', 'TotalDepth.common.LogPass.FrameArray / FrameChannel']
 STUB = ['file object -> io.StringIO over the generated text', 'file writer -> content model worlds/dat.py']
 ASSUMPTIONS = [
-    'corruptions whose outcome the statement leaves open are not generated (nan, inf, 1_0, out-of-range dates, duplicate header names, blank lines)',
+    'corruptions whose outcome the statement leaves open are not generated (nan, inf, 1_0, out-of-range dates, a header name REPLACED by a repeat of another or repeated in a file without data rows, blank lines); a name INSERTED a second time above unchanged data rows is generated: those rows no longer match the header',
     'a DAT error is an ExceptionDAT subclass raised by parse_file; anything else raised, or a successful parse where an error is expected, is a violation',
     'can_parse_file (which by design reads one data row only) must be false when an error-corruption is at or before the first data line, and true for a healthy file with >= 1 row',
     'years 1951..2050 only (two digit year convention)',
 ]
 PROBES = ['copy_token_error', 'copy_token_changed', 'drop_col_first', 'drop_col_middle', 'drop_col_last', 'add_col', 'letters_in_float', 'bad_utim', 'bad_date', 'bad_time', 'undeclared_header_name',
-          'delete_used_decl', 'delete_unused_decl', 'delete_header', 'whitespace', 'digit_change', 'zero_rows', 'tab_declarations', 'date_style_A', 'date_style_B',
+          'delete_used_decl', 'delete_unused_decl', 'delete_header', 'repeat_header_name', 'whitespace', 'digit_change', 'zero_rows', 'tab_declarations', 'date_style_A', 'date_style_B',
           'healthy_can_parse']
 
 DAT = None
@@ -50,6 +50,12 @@ def enumerate_corruptions(model, rng):
     for c in range(3, len(model['header'])):
         out.append(['undeclared_header', ['header'], [c, rng.pick(['ZZZ', 'Q9', 'NOPE'])], 'error'])
     out.append(['delete_header', ['header'], None, 'error'])
+    if model['rows'] and len(model['header']) > 3:
+        # a name typed twice on the header line, the data lines untouched: they no longer match the header (one value short),
+        # whether the repeat comes after the original or before it
+        src = rng.randrange(3, len(model['header']))
+        out.append(['repeat_header_name', ['header'], [len(model['header']), src], 'error'])
+        out.append(['repeat_header_name', ['header'], [rng.randrange(3, src + 1), src], 'error'])
     out.append(['whitespace', ['header'], rng.pick(['trail', 'lead', 'double']), 'same'])
     ncol = len(model['header'])
     for r in range(len(model['rows'])):
@@ -111,6 +117,10 @@ def apply(model, corr):
     elif kind == 'undeclared_header':
         toks = text.split()
         toks[params[0]] = params[1]
+        lines[idx] = (tag, retok(toks))
+    elif kind == 'repeat_header_name':
+        toks = text.split()
+        toks.insert(params[0], toks[params[1]])
         lines[idx] = (tag, retok(toks))
     else:
         toks = text.split()
@@ -198,6 +208,8 @@ def execute(scenario):
     # ---- every single-line corruption
     for k, corr in enumerate(scenario['corruptions']):
         kind, target, params, expected = corr
+        if kind == 'repeat_header_name' and not model['rows']:
+            continue            # without data rows nothing contradicts the header: left open by the statement
         try:
             text2, m2 = apply(model, corr)
         except StopIteration:
@@ -234,6 +246,8 @@ def execute(scenario):
             res.probe('delete_used_decl' if expected == 'error' else 'delete_unused_decl')
         elif kind == 'delete_header':
             res.probe('delete_header')
+        elif kind == 'repeat_header_name':
+            res.probe('repeat_header_name')
         elif kind == 'whitespace':
             res.probe('whitespace')
         elif kind == 'digit':
